@@ -559,16 +559,18 @@ def pools(prefix_families):
     if prefix_families:
         return {
             'tasks': ['tk', 'tk2'],
-            'algs': ['Alg', 'Alg2', 'Alg20', 'A'],
+            # (also names shared across levels: an algorithm called like its
+            # task, a value called like its state vector)
+            'algs': ['Alg', 'Alg2', 'Alg20', 'tk'],
             'svs': ['s', 's1'],
-            'vals': ['v', 'v1', 'vv'],
+            'vals': ['v', 'v1', 's'],
             'targets': ['T', 'T1', 'TT', 'U'],
         }
     return {
         'tasks': ['tk', 'uw'],
         'algs': ['alpha', 'beta', 'gamma'],
         'svs': ['s', 't'],
-        'vals': ['v', 'w', 'x'],
+        'vals': ['v', 's', 'x'],
         'targets': ['T1', 'T2', 'U3'],
     }
 
